@@ -67,6 +67,13 @@ def half_ulp(token):
 
 def oracle_roundtrip(case, ctx):
     discs = []
+    if case.get("formula"):
+        # a large panel (the written file is several MiB), values from a formula
+        n_, t_, dec_ = case["formula"]
+        k_ = np.arange(t_)
+        case = dict(case, values=[np.round(np.sin(0.37 * k_ + i) * 1000.0 + i, dec_).tolist() for i in range(n_)],
+                    labels=[["a", "b", "zz"][i % 3] for i in range(n_)] if case.get("labels") else None)
+        ctx.label("file_of_several_MiB")
     A = np.array(case["values"], dtype=float)
     n, t = A.shape
     ci = case.get("cell_index")
@@ -306,9 +313,18 @@ def rt_cases(draw):
             "cell_index": draw(st.sampled_from([None, None, None, "origin", "descending", "wrapped"]))}
 
 
+def enum_large_files(tier):
+    """Written files of about 5 and 9 MiB (more than any buffer or size hint a reader might use)."""
+    for n_, t_ in ((450, 1100), (800, 1100)) if tier != "quick" else ((450, 1100),):
+        for lab in (True, False):
+            yield {"formula": [n_, t_, 4], "labels": lab, "labels_as_array": False, "comment": None, "equal_length": True, "name_id": 1,
+                   "cell_index": None, "row_labels": None}
+
+
 def subchecks():
     return [
         SubCheck("ts_roundtrip", oracle_roundtrip, rt_cases(), quick=2000, thorough=10000, shards_quick=6, shards_thorough=16),
+        SubCheck("large_files", oracle_roundtrip, enumerate_cases=enum_large_files, shards_quick=2, shards_thorough=4, exhaustive=True),
         SubCheck("formats_agree", oracle_formats, enumerate_cases=lambda tier: [{"i": i} for i in range(len(FORMAT_SETS))],
                  shards_quick=3, shards_thorough=3, exhaustive=True),
         SubCheck("loader_splits", oracle_loaders, enumerate_cases=lambda tier: [{"i": i} for i in range(len(LOADERS))],
